@@ -20,6 +20,7 @@ func checkC04(p *Prog, r *Report) {
 	rulePoolReset(p, r)
 	rulePoolUAR(p, r, "C04")
 	rulePoolOwn(p, r)
+	rulePoolNew(p, r)
 	r.Floor("POOL-OWN", 6)
 	ruleGlobW(p, r)
 	ruleSizeG(p, r)
